@@ -2,7 +2,7 @@ SPECIFICATION TraceSpec
 CONSTANTS
   RecordHist = FALSE
   FixF4 = FALSE
-  FixF36 = FALSE
+  FixF36 = TRUE
   Users = {}
   Consumers = {}
   Actors = {}
